@@ -237,7 +237,14 @@ fn main() {
                         let _ = std::fs::remove_file(&*outp);
                         match (ok, body.and_then(|b| serde_json::from_str::<Acc>(&b).ok())) {
                             (true, Some(a)) => merged.merge(a),
-                            _ => failed.push((*s, format!("worker exit status {:?}", st))),
+                            _ => {
+                                if st.code() == Some(101) {
+                                    // an uncaught panic in the harness itself (falcon panics are caught): machinery
+                                    eprintln!("MACHINERY: worker {} panicked in harness code (exit 101); run `fv {} {} --shard {}/{}` to see it", s, prop.id, tier.name(), s, n);
+                                    std::process::exit(2);
+                                }
+                                failed.push((*s, format!("worker exit status {:?}", st)))
+                            }
                         }
                     }
                     Ok(None) => {
